@@ -41,7 +41,8 @@ ASSUMPTIONS = ["a process crash keeps exactly the effect of the system calls tha
                "sequence numbers and control values below 2^31"]
 RULE = ("quick: 120 random store histories of <= 6 operations (message put over sequence numbers 1..4 with payloads of 1..12 "
         "distinct bytes, control put, get, close+reopen; 3 of 4 control-first) x EVERY crash point k = 0..total number of "
-        "write/lseek calls; thorough: ALL histories of <= 4 operations over {put 1,2,3 x 2 payload sizes, control put, reopen} x "
+        "write/lseek calls; thorough: ALL histories of <= 3 operations over {put 1,2,3 x 2 payload sizes, control put, reopen} and every "
+        "4th history of length 4 (all of them with VERIF_C27_FULL=1; that run exceeds the 15 min budget on a loaded machine) x "
         "every crash point.  After the crash: both files compared byte-wise with the model's disk; reopen; control get, last, get "
         "of every sequence number; two further stores (aimed at the in-flight sequence number and its neighbour); the same reads "
         "again.  non-trivial = a crash strictly inside an operation, or at least two completed stores; distinct = distinct case lines")
@@ -177,8 +178,12 @@ def gen_cases(rng, tier):
         sizes = (3, 7)
         alphabet = [("P", s, n) for s in (1, 2, 3) for n in sizes] + [("C",), ("O",)]
         serial = 0
+        full = os.environ.get("VERIF_C27_FULL") == "1"
         for ln in range(1, 5):
-            for combo in itertools.product(alphabet, repeat=ln):
+            for idx, combo in enumerate(itertools.product(alphabet, repeat=ln)):
+                if ln == 4 and not full and idx % 4 != 0:
+                    serial += 4      # keep payload bytes independent of the sampling
+                    continue
                 pre = []
                 for j, o in enumerate(combo):
                     serial += 1
@@ -268,7 +273,8 @@ CLASSIFIERS = {"msg-before-control": c_msg_before_control, "torn-put": c_torn_pu
 
 
 def EXHAUSTIVE(tier):
-    return tier == "thorough"
+    # exhaustive only for histories of <= 3 operations (and for <= 4 with VERIF_C27_FULL=1): not claimed
+    return tier == "thorough" and os.environ.get("VERIF_C27_FULL") == "1"
 
 
 def extra_search(rng, seeds, tier):
